@@ -34,12 +34,13 @@ MIN_REACH = {
     "grow_events_recorded": {"quick": 1200, "thorough": 25000},
     "failed_grows": {"quick": 40, "thorough": 800},
     "check_bad_calls": {"quick": 40, "thorough": 800},
+    "unwritable_results": {"quick": 40, "thorough": 800},
     "resows": {"quick": 40, "thorough": 800},
 }
 TIME_BUDGET = {"quick": 300, "thorough": 3000}
 
 OPS = ["grow", "grow", "grow_subset", "grow_missing", "grow_fail", "delete", "corrupt_check", "resow", "reload", "query",
-       "grow_fn"]
+       "grow_fn", "grow_unpicklable"]
 
 
 def cases(ctx):
@@ -163,7 +164,8 @@ def run_case(ctx, case):
         if not m or int(m.group(1)) != len(finished) or int(m.group(2)) != B:
             bad.append("str(crop) says %r for %d/%d" % (m.group(0) if m else s[:80], len(finished), B))
         want_files = sorted("xyz-result-%d.jbdmp" % i for i in finished)
-        if listing() != want_files:
+        # (temporary files left behind by a failed write are not results: only final names are compared)
+        if [f for f in listing() if re.fullmatch(r"xyz-result-\d+\.jbdmp", f)] != want_files:
             bad.append("results/ holds %s, finished batches are %s" % (listing(), sorted(finished)))
         ctx.count("states_judged")
         for msg in bad[:2]:
@@ -222,6 +224,18 @@ def run_case(ctx, case):
                         crop.grow(ids)
                     finally:
                         probe.write_ctl(ctl)
+                elif op == "grow_unpicklable":
+                    # the function returns something that cannot be written: the grow must fail and leave
+                    # the batch unfinished (whatever temporary files the writer leaves behind)
+                    ids = rng.sample(sorted(allb), rng.randint(1, B))
+                    j = rng.choice(ids)
+                    probe.write_ctl(ctl, unpicklable=[rng.choice(batch_settings[j])])
+                    expect_exc = "unpicklable"
+                    ctx.count("unwritable_results")
+                    try:
+                        crop.grow(ids)
+                    finally:
+                        probe.write_ctl(ctl)
                 elif op == "delete":
                     if finished:
                         i = rng.choice(sorted(finished))
@@ -270,7 +284,9 @@ def run_case(ctx, case):
             err = e
         log_off = probe.read_log(logfile, log_off)[1]
         done_hist.append(op if not ids else "%s%s" % (op, ids))
-        if err is not None and not (expect_exc and isinstance(err, probe.ProbeFailure)):
+        if err is not None and expect_exc == "unpicklable":
+            pass            # any exception from the failed write is fine
+        elif err is not None and not (expect_exc and isinstance(err, probe.ProbeFailure)):
             ctx.violation(dict(case, at=list(done_hist)), "%s raised %r" % (op, err), dict(sig, oracle="no-exception", op=op, **exc_sig(err)))
             nviol += 1
             break
@@ -284,9 +300,9 @@ def run_case(ctx, case):
                 finished.add(i)
         # a grow writes only its own result file(s)
         after = listing()
-        if op in ("grow", "grow_fn", "grow_subset", "grow_missing", "grow_fail"):
+        if op in ("grow", "grow_fn", "grow_subset", "grow_missing", "grow_fail", "grow_unpicklable"):
             returned = {"xyz-result-%d.jbdmp" % i for (i, o, _) in rec.events[ev0:] if o == "returned"}
-            new = set(after) - set(before)
+            new = {f for f in set(after) - set(before) if re.fullmatch(r"xyz-result-\d+\.jbdmp", f)}
             if not new <= returned or set(before) - set(after):
                 ctx.violation(dict(case, at=list(done_hist)), "growing changed result files other than its own: new=%s removed=%s (batches that returned: %s)" % (
                     sorted(new), sorted(set(before) - set(after)), sorted(returned)), dict(sig, oracle="only-own-result"))
